@@ -1,18 +1,1279 @@
-//! C04 — not built yet.
+//! C04 — encoding then decoding a message returns the same message.
+//!
+//! Every message of the stated spaces is encoded with the real
+//! `Message::to_octets`, decoded again with the real `Message::from_octets` *and*
+//! with the independent decoder of `refwire`, and the encoded octets are audited
+//! structurally: every compression pointer must sit below its own offset, must
+//! address the start of a name (or name suffix) that was written out literally
+//! earlier, and that earlier name must be identical to the name the encoder was
+//! asked to write at the pointer.
+//!
+//! Spaces: (1) all 2^13 flag/opcode/rcode combinations x 3 IDs, with and without
+//! a body; (2) all sequences of <= 3 records from a 40-template pool (all 19
+//! `RecordTypeWithData` variants, names shared between question, owner and
+//! RDATA, empty / 1-octet RDATA, 63/255-octet names) x section splits x question
+//! sets, plus messages with maximal RDATA; (3) an offset sweep: 7 name-reuse
+//! patterns, one message per offset placing the first occurrence of the reused
+//! name at every offset of stated windows around 16384, 32768, 49152 and below
+//! 65535; (4) every input of C03's corpus that the reference decoder accepts
+//! is re-encoded and must decode to the same message again.
+
+use crate::c03;
 use crate::common::*;
-use serde_json::Value;
+use crate::refwire::{self, Compress};
+use crate::util::*;
+use bytes::Bytes;
+use dns_types::protocol::types::*;
+use serde_json::{json, Value};
+use std::collections::{BTreeMap, HashMap};
+use std::net::Ipv4Addr;
 
-pub fn run(_ctx: &Ctx) -> i32 {
-    eprintln!("C04: check not built");
-    2
+pub const SLUG_PTR: &str = "compression-pointer-beyond-16383";
+
+// ---------------------------------------------------------------------------------------------
+// the oracle
+// ---------------------------------------------------------------------------------------------
+
+#[derive(Debug, Clone)]
+struct PtrFail {
+    at: usize,
+    target: usize,
+    /// offsets at which the identical name (suffix) had been written literally
+    identical_at: Vec<usize>,
+    text: String,
 }
 
-pub fn replay(_ctx: &Ctx, _v: &Value) -> i32 {
-    eprintln!("C04: check not built");
-    2
+#[derive(Debug, Default, Clone)]
+struct AuditResult {
+    pointers: usize,
+    ptr_fails: Vec<PtrFail>,
+    other: Vec<String>,
 }
 
-/// Entry point for `vcheck worker C04 <args...>` (child-process mode).
+impl AuditResult {
+    fn ok(&self) -> bool {
+        self.ptr_fails.is_empty() && self.other.is_empty()
+    }
+    /// narrow predicate of the known-defect family: every failing pointer's
+    /// 14-bit target is the low 14 bits of an offset >= 16384 at which the
+    /// identical name was first written, and nothing else is wrong
+    fn matches_truncated_offset(&self) -> bool {
+        self.other.is_empty()
+            && !self.ptr_fails.is_empty()
+            && self.ptr_fails.iter().all(|f| {
+                f.identical_at
+                    .iter()
+                    .min()
+                    .map(|o| *o >= 16384 && (*o & 0x3fff) == f.target)
+                    .unwrap_or(false)
+            })
+    }
+}
+
+/// Expand the name at `pos` (independent mini decoder; hop-limited).
+fn expand(b: &[u8], mut pos: usize) -> Option<Vec<Vec<u8>>> {
+    let mut out = Vec::new();
+    let mut hops = 0;
+    loop {
+        let c = *b.get(pos)? as usize;
+        if c == 0 {
+            return Some(out);
+        } else if c < 64 {
+            out.push(b.get(pos + 1..pos + 1 + c)?.to_vec());
+            pos += 1 + c;
+        } else if c >= 192 {
+            hops += 1;
+            if hops > 200 {
+                return None;
+            }
+            pos = ((c & 0x3f) << 8) | *b.get(pos + 1)? as usize;
+        } else {
+            return None;
+        }
+    }
+}
+
+struct Auditor<'a> {
+    b: &'a [u8],
+    pos: usize,
+    names: Vec<&'a DomainName>,
+    /// offset of a literally written label -> (name index, label index)
+    starts: HashMap<usize, (usize, usize)>,
+    res: AuditResult,
+}
+
+impl<'a> Auditor<'a> {
+    fn name(&mut self, expected: &'a DomainName) -> Result<(), ()> {
+        let ni = self.names.len();
+        self.names.push(expected);
+        let mut k = 0usize;
+        loop {
+            let c = match self.b.get(self.pos) {
+                Some(c) => *c as usize,
+                None => {
+                    self.res.other.push(format!("encoding ends inside a name at offset {}", self.pos));
+                    return Err(());
+                }
+            };
+            if c >= 192 {
+                let at = self.pos;
+                let lo = match self.b.get(at + 1) {
+                    Some(l) => *l as usize,
+                    None => {
+                        self.res.other.push(format!("encoding ends inside a pointer at offset {at}"));
+                        return Err(());
+                    }
+                };
+                let target = ((c & 0x3f) << 8) | lo;
+                self.res.pointers += 1;
+                let rest = &expected.labels[k..];
+                let mut problem = None;
+                if target >= at {
+                    problem = Some(format!("pointer at offset {at} targets {target}, not below its own offset"));
+                } else {
+                    match self.starts.get(&target) {
+                        None => {
+                            problem = Some(format!(
+                                "pointer at offset {at} targets {target}, which is not the start of a name written earlier"
+                            ));
+                        }
+                        Some((tn, tk)) => {
+                            if self.names[*tn].labels[*tk..] != *rest {
+                                problem = Some(format!(
+                                    "pointer at offset {at} targets {target} where `{}` was written, but the name to write is `{}`",
+                                    show_labels(&self.names[*tn].labels[*tk..]),
+                                    show_labels(rest)
+                                ));
+                            }
+                        }
+                    }
+                    if problem.is_none() {
+                        let want: Vec<Vec<u8>> = rest
+                            .iter()
+                            .filter(|l| !l.is_empty())
+                            .map(|l| l.octets().to_vec())
+                            .collect();
+                        if expand(self.b, target) != Some(want) {
+                            problem = Some(format!(
+                                "pointer at offset {at} targets {target}, whose expansion is not `{}`",
+                                show_labels(rest)
+                            ));
+                        }
+                    }
+                }
+                if let Some(text) = problem {
+                    let mut identical_at: Vec<usize> = self
+                        .starts
+                        .iter()
+                        .filter(|(_, (tn, tk))| self.names[*tn].labels[*tk..] == *rest)
+                        .map(|(o, _)| *o)
+                        .collect();
+                    identical_at.sort_unstable();
+                    self.res.ptr_fails.push(PtrFail { at, target, identical_at, text });
+                }
+                self.pos += 2;
+                return Ok(());
+            } else if c == 0 {
+                if k + 1 != expected.labels.len() {
+                    self.res.other.push(format!("name at offset {} ends after {k} labels, expected `{}`", self.pos, show_name(expected)));
+                    return Err(());
+                }
+                self.pos += 1;
+                return Ok(());
+            } else if c < 64 {
+                let lab = self.b.get(self.pos + 1..self.pos + 1 + c);
+                let exp = expected.labels.get(k);
+                match (lab, exp) {
+                    (Some(l), Some(e)) if l == &e.octets()[..] => {}
+                    _ => {
+                        self.res.other.push(format!("literal label at offset {} differs from label {k} of `{}`", self.pos, show_name(expected)));
+                        return Err(());
+                    }
+                }
+                self.starts.insert(self.pos, (ni, k));
+                self.pos += 1 + c;
+                k += 1;
+            } else {
+                self.res.other.push(format!("octet {c:#x} at offset {} is neither a label length nor a pointer", self.pos));
+                return Err(());
+            }
+        }
+    }
+    fn skip(&mut self, n: usize) -> Result<(), ()> {
+        if self.pos + n > self.b.len() {
+            self.res.other.push(format!("encoding ends early (need {n} octets at offset {})", self.pos));
+            return Err(());
+        }
+        self.pos += n;
+        Ok(())
+    }
+    fn rr(&mut self, r: &'a ResourceRecord) -> Result<(), ()> {
+        self.name(&r.name)?;
+        self.skip(8)?;
+        let at = self.pos;
+        self.skip(2)?;
+        let rdl = u16::from_be_bytes([self.b[at], self.b[at + 1]]) as usize;
+        let start = self.pos;
+        match &r.rtype_with_data {
+            RecordTypeWithData::A { .. } => self.skip(4)?,
+            RecordTypeWithData::AAAA { .. } => self.skip(16)?,
+            RecordTypeWithData::NS { nsdname: n }
+            | RecordTypeWithData::MD { madname: n }
+            | RecordTypeWithData::MF { madname: n }
+            | RecordTypeWithData::CNAME { cname: n }
+            | RecordTypeWithData::MB { madname: n }
+            | RecordTypeWithData::MG { mdmname: n }
+            | RecordTypeWithData::MR { newname: n }
+            | RecordTypeWithData::PTR { ptrdname: n } => self.name(n)?,
+            RecordTypeWithData::SOA { mname, rname, .. } => {
+                self.name(mname)?;
+                self.name(rname)?;
+                self.skip(20)?;
+            }
+            RecordTypeWithData::MINFO { rmailbx, emailbx } => {
+                self.name(rmailbx)?;
+                self.name(emailbx)?;
+            }
+            RecordTypeWithData::MX { exchange, .. } => {
+                self.skip(2)?;
+                self.name(exchange)?;
+            }
+            RecordTypeWithData::SRV { target, .. } => {
+                self.skip(6)?;
+                self.name(target)?;
+            }
+            RecordTypeWithData::NULL { octets }
+            | RecordTypeWithData::WKS { octets }
+            | RecordTypeWithData::HINFO { octets }
+            | RecordTypeWithData::TXT { octets }
+            | RecordTypeWithData::Unknown { octets, .. } => self.skip(octets.len())?,
+        }
+        if self.pos != start + rdl {
+            self.res.other.push(format!("RDLENGTH at offset {at} says {rdl}, RDATA written is {} octets", self.pos - start));
+            return Err(());
+        }
+        Ok(())
+    }
+}
+
+fn show_labels(l: &[Label]) -> String {
+    let mut s = String::new();
+    for x in l {
+        if x.is_empty() {
+            break;
+        }
+        s.push_str(&show_bytes(x.octets()));
+        s.push('.');
+    }
+    if s.is_empty() {
+        s.push('.');
+    }
+    s
+}
+
+fn audit(b: &[u8], m: &Message) -> AuditResult {
+    let mut a = Auditor { b, pos: 12, names: Vec::new(), starts: HashMap::new(), res: AuditResult::default() };
+    if b.len() < 12 {
+        a.res.other.push("encoding shorter than a header".into());
+        return a.res;
+    }
+    let counts = [m.questions.len(), m.answers.len(), m.authority.len(), m.additional.len()];
+    for (i, c) in counts.iter().enumerate() {
+        let w = u16::from_be_bytes([b[4 + 2 * i], b[5 + 2 * i]]) as usize;
+        if w != *c {
+            a.res.other.push(format!("count {i} written as {w}, message has {c}"));
+            return a.res;
+        }
+    }
+    let walk = (|| -> Result<(), ()> {
+        for q in &m.questions {
+            a.name(&q.name)?;
+            a.skip(4)?;
+        }
+        for r in m.answers.iter().chain(&m.authority).chain(&m.additional) {
+            a.rr(r)?;
+        }
+        Ok(())
+    })();
+    if walk.is_ok() && a.pos != b.len() {
+        a.res.other.push(format!("{} octets after the last record", b.len() - a.pos));
+    }
+    a.res
+}
+
+#[derive(Default)]
+struct Acc {
+    messages: u64,
+    octets: u64,
+    with_pointer: u64,
+    pointers: u64,
+    hist: BTreeMap<String, u64>,
+    hashes: Vec<u64>,
+    hash_overflow: bool,
+    viols: Vec<((usize, u64, String), Violation)>,
+    viol_counts: BTreeMap<String, u64>,
+    known_counts: u64,
+    skipped_oversize: u64,
+    corpus_inputs: u64,
+    samples: Vec<Value>,
+}
+
+impl Acc {
+    fn h(&mut self, k: &str) {
+        *self.hist.entry(k.to_string()).or_insert(0) += 1;
+    }
+    fn push(&mut self, key: (usize, u64, String), v: Violation) {
+        *self.viol_counts.entry(format!("{}|{}", v.clause, v.slug.unwrap_or(""))).or_insert(0) += 1;
+        if v.slug.is_some() {
+            self.known_counts += 1;
+        }
+        self.viols.push((key, v));
+        if self.viols.len() > 400 {
+            self.trim();
+        }
+    }
+    fn trim(&mut self) {
+        self.viols.sort_by(|a, b| (a.1.clause.as_str(), &a.0).cmp(&(b.1.clause.as_str(), &b.0)));
+        let mut kept: Vec<((usize, u64, String), Violation)> = Vec::new();
+        let mut n: BTreeMap<String, usize> = BTreeMap::new();
+        for (k, v) in self.viols.drain(..) {
+            let c = n.entry(format!("{}|{}", v.clause, v.slug.unwrap_or(""))).or_insert(0);
+            *c += 1;
+            if *c <= 12 {
+                kept.push((k, v));
+            }
+        }
+        self.viols = kept;
+    }
+    fn merge(&mut self, o: Acc) {
+        self.messages += o.messages;
+        self.octets += o.octets;
+        self.with_pointer += o.with_pointer;
+        self.pointers += o.pointers;
+        for (k, v) in o.hist {
+            *self.hist.entry(k).or_insert(0) += v;
+        }
+        self.hashes.extend(o.hashes);
+        self.hash_overflow |= o.hash_overflow;
+        for (k, v) in o.viol_counts {
+            *self.viol_counts.entry(k).or_insert(0) += v;
+        }
+        self.known_counts += o.known_counts;
+        self.viols.extend(o.viols);
+        self.trim();
+        self.skipped_oversize += o.skipped_oversize;
+        self.corpus_inputs += o.corpus_inputs;
+        for s in o.samples {
+            if self.samples.len() < 6 {
+                self.samples.push(s);
+            }
+        }
+    }
+}
+
+/// One-line rendering of a record that never formats more than a few octets
+/// of opaque RDATA (messages here carry up to 65 535 of them).
+fn brief_rr(r: &ResourceRecord) -> String {
+    let opaque = |tag: String, o: &Bytes| {
+        if o.len() > 8 {
+            format!("{tag} \"{}\"…({} octets)", show_bytes(&o[..8]), o.len())
+        } else {
+            format!("{tag} \"{}\"", show_bytes(o))
+        }
+    };
+    let data = match &r.rtype_with_data {
+        RecordTypeWithData::NULL { octets } => opaque("NULL".into(), octets),
+        RecordTypeWithData::WKS { octets } => opaque("WKS".into(), octets),
+        RecordTypeWithData::HINFO { octets } => opaque("HINFO".into(), octets),
+        RecordTypeWithData::TXT { octets } => opaque("TXT".into(), octets),
+        RecordTypeWithData::Unknown { tag, octets } => opaque(format!("{}", RecordType::Unknown(*tag)), octets),
+        other => show_data(other),
+    };
+    let brief_name = |n: &DomainName| {
+        let s = show_name(n);
+        if s.len() > 40 {
+            let mut cut = 30;
+            while !s.is_char_boundary(cut) {
+                cut -= 1;
+            }
+            format!("{}…({} octets)", &s[..cut], n.len)
+        } else {
+            s
+        }
+    };
+    let mut s = format!("{} {} {} {}", brief_name(&r.name), r.ttl, r.rclass, data);
+    if s.len() > 110 {
+        let mut cut = 110;
+        while !s.is_char_boundary(cut) {
+            cut -= 1;
+        }
+        s.truncate(cut);
+        s.push('…');
+    }
+    s
+}
+
+fn describe_message(m: &Message) -> String {
+    let mut parts = Vec::new();
+    for q in m.questions.iter().take(3) {
+        let mut n = show_name(&q.name);
+        if n.len() > 40 {
+            n = format!("{}…({} octets)", &n[..30], q.name.len);
+        }
+        parts.push(format!("Q {} {} {}", n, q.qtype, q.qclass));
+    }
+    if m.questions.len() > 3 {
+        parts.push(format!("Q … {} more", m.questions.len() - 3));
+    }
+    for (tag, sec) in [("AN", &m.answers), ("NS", &m.authority), ("AR", &m.additional)] {
+        for r in sec.iter().take(4) {
+            parts.push(format!("{tag} {}", brief_rr(r)));
+        }
+        if sec.len() > 4 {
+            parts.push(format!("{tag} … {} more", sec.len() - 4));
+        }
+    }
+    format!("id={:#06x} [{}]", m.header.id, parts.join(" | "))
+}
+
+/// The oracle for one message.  `origin` says where the message came from and
+/// is stored in the replay file; `order` sorts witnesses of equal size.
+fn check_message(acc: &mut Acc, m: &Message, origin: &dyn Fn() -> Value, space: &str, order: u64, judge_size: bool) {
+    acc.messages += 1;
+    let enc = std::panic::catch_unwind(std::panic::AssertUnwindSafe(|| m.to_octets()));
+    let bytes = match enc {
+        Err(_) => {
+            acc.push(
+                (0, order, String::new()),
+                Violation {
+                    clause: "panic".into(),
+                    summary: format!("to_octets panicked for {}", describe_message(m)),
+                    replay: origin(),
+                    slug: None,
+                },
+            );
+            return;
+        }
+        Ok(Err(e)) => {
+            acc.push(
+                (0, order, String::new()),
+                Violation {
+                    clause: "encode-error".into(),
+                    summary: format!("to_octets refused a well-formed message ({e}): {}", describe_message(m)),
+                    replay: origin(),
+                    slug: None,
+                },
+            );
+            return;
+        }
+        Ok(Ok(b)) => b,
+    };
+    if judge_size && bytes.len() > 65535 {
+        // D8: outside the claim
+        acc.skipped_oversize += 1;
+        acc.h(&format!("{space}/skipped-over-65535"));
+        return;
+    }
+    acc.octets += bytes.len() as u64;
+    let au = audit(&bytes, m);
+    acc.pointers += au.pointers as u64;
+    if au.pointers > 0 {
+        acc.with_pointer += 1;
+        if acc.hashes.len() < 6_000_000 {
+            acc.hashes.push(fnv64(&bytes));
+        } else {
+            acc.hash_overflow = true;
+        }
+        acc.h(&format!("{space}/round-trip-with-pointers"));
+    } else {
+        acc.h(&format!("{space}/round-trip-no-pointer"));
+    }
+    let known = au.matches_truncated_offset();
+    let slug = if known { Some(SLUG_PTR) } else { None };
+    let key = |t: &str| (bytes.len(), order, t.to_string());
+    let ptr_note = au
+        .ptr_fails
+        .first()
+        .map(|f| {
+            format!(
+                " [{}; identical name written literally at offset(s) {:?}; pointer octets {}]",
+                f.text,
+                f.identical_at,
+                hex(&bytes[f.at..(f.at + 2).min(bytes.len())])
+            )
+        })
+        .unwrap_or_default();
+    if !au.ok() {
+        let text = au
+            .ptr_fails
+            .iter()
+            .map(|f| f.text.clone())
+            .chain(au.other.iter().cloned())
+            .take(3)
+            .collect::<Vec<_>>()
+            .join("; ");
+        acc.push(
+            key("audit"),
+            Violation {
+                clause: "pointer-audit".into(),
+                summary: format!("{} octets encoded from {}: {text}{}", bytes.len(), describe_message(m), if au.ptr_fails.is_empty() { String::new() } else { ptr_note.clone() }),
+                replay: origin(),
+                slug,
+            },
+        );
+    }
+    let got = std::panic::catch_unwind(std::panic::AssertUnwindSafe(|| Message::from_octets(&bytes)));
+    match got {
+        Err(_) => acc.push(
+            key("impl"),
+            Violation {
+                clause: "panic".into(),
+                summary: format!("from_octets panicked on the {}-octet encoding of {}", bytes.len(), describe_message(m)),
+                replay: origin(),
+                slug: None,
+            },
+        ),
+        Ok(Ok(ref back)) if back == m => {}
+        Ok(other) => {
+            let what = match &other {
+                Ok(back) => format!("decodes to a different message: {}", describe_message(back)),
+                Err(e) => format!("does not decode: {e}"),
+            };
+            acc.push(
+                key("impl"),
+                Violation {
+                    clause: "roundtrip-implementation-decoder".into(),
+                    summary: format!("{} octets encoded from {} — {what}{ptr_note}", bytes.len(), describe_message(m)),
+                    replay: origin(),
+                    slug,
+                },
+            );
+        }
+    }
+    match refwire::decode(&bytes) {
+        Ok(ref back) if back == m => {}
+        other => {
+            let what = match &other {
+                Ok(back) => format!("decodes to a different message: {}", describe_message(back)),
+                Err(e) => format!("does not decode: {:?}", e.kind),
+            };
+            acc.push(
+                key("ref"),
+                Violation {
+                    clause: "roundtrip-reference-decoder".into(),
+                    summary: format!("{} octets encoded from {} — reference decoder: {what}{ptr_note}", bytes.len(), describe_message(m)),
+                    replay: origin(),
+                    slug,
+                },
+            );
+        }
+    }
+    if acc.samples.len() < 2 && au.pointers > 0 && (order % 7919 == 3 || space == "sweep") {
+        acc.samples.push(json!({
+            "space": space,
+            "message": describe_message(m),
+            "encoded_octets": bytes.len(),
+            "pointers": au.pointers,
+            "encoding_head": c03::describe_input(&bytes),
+        }));
+    }
+}
+
+// ---------------------------------------------------------------------------------------------
+// spaces
+// ---------------------------------------------------------------------------------------------
+
+fn header_for(bits: u32, id: u16) -> Header {
+    Header {
+        id,
+        is_response: bits & 1 != 0,
+        opcode: Opcode::from(((bits >> 1) & 15) as u8),
+        is_authoritative: bits & (1 << 5) != 0,
+        is_truncated: bits & (1 << 6) != 0,
+        recursion_desired: bits & (1 << 7) != 0,
+        recursion_available: bits & (1 << 8) != 0,
+        rcode: Rcode::from(((bits >> 9) & 15) as u8),
+    }
+}
+
+fn plain_header(id: u16) -> Header {
+    header_for(0, id)
+}
+
+fn n1() -> DomainName {
+    dn("a.")
+}
+fn n2() -> DomainName {
+    dn("b.a.")
+}
+fn n3() -> DomainName {
+    dn("www.example.com.")
+}
+/// Name built through the public fields: the inputs of this check must not
+/// depend on `DomainName::from_labels` (judged by C16).
+fn raw_name(labels: &[&[u8]]) -> DomainName {
+    let mut v: Vec<Label> = labels.iter().map(|l| label(l)).collect();
+    v.push(Label::new());
+    let len = v.iter().map(|l| 1 + l.len() as usize).sum();
+    DomainName { labels: v, len }
+}
+fn l63() -> DomainName {
+    raw_name(&[&[b'x'; 63]])
+}
+fn n255() -> DomainName {
+    raw_name(&[&[b'p'; 63], &[b'q'; 63], &[b'r'; 63], &[b's'; 61]])
+}
+
+fn opaque(n: usize) -> Bytes {
+    Bytes::from((0..n).map(|i| (i % 251) as u8).collect::<Vec<u8>>())
+}
+
+fn rrc(name: &DomainName, data: RecordTypeWithData, class: u16, ttl: u32) -> ResourceRecord {
+    ResourceRecord { name: name.clone(), rtype_with_data: data, rclass: RecordClass::from(class), ttl }
+}
+
+fn unknown(code: u16, octets: Bytes) -> RecordTypeWithData {
+    match RecordType::from(code) {
+        RecordType::Unknown(tag) => RecordTypeWithData::Unknown { tag, octets },
+        _ => panic!("harness: {code} is a known type"),
+    }
+}
+
+/// The record-template pool (40 templates, all 19 variants).
+fn templates() -> Vec<ResourceRecord> {
+    let (a1, b2, w3, x63, big) = (n1(), n2(), n3(), l63(), n255());
+    let root = DomainName::root_domain();
+    let soa = |m: &DomainName, r: &DomainName| RecordTypeWithData::SOA {
+        mname: m.clone(),
+        rname: r.clone(),
+        serial: 1,
+        refresh: 0,
+        retry: u32::MAX,
+        expire: 4,
+        minimum: 5,
+    };
+    vec![
+        rrc(&a1, a([192, 0, 2, 1]), 1, 0),
+        rrc(&b2, a([255, 255, 255, 255]), 1, 1),
+        rrc(&a1, aaaa(9), 1, u32::MAX),
+        rrc(&a1, ns(&b2), 1, 300),
+        rrc(&b2, ns(&a1), 1, 300),
+        rrc(&b2, cname(&w3), 1, 0),
+        rrc(&w3, cname(&w3), 1, 7),
+        rrc(&a1, RecordTypeWithData::MD { madname: b2.clone() }, 1, 1),
+        rrc(&b2, RecordTypeWithData::MF { madname: w3.clone() }, 1, 2),
+        rrc(&w3, RecordTypeWithData::MB { madname: a1.clone() }, 1, 3),
+        rrc(&a1, RecordTypeWithData::MG { mdmname: a1.clone() }, 1, 4),
+        rrc(&b2, RecordTypeWithData::MR { newname: root.clone() }, 1, 5),
+        rrc(&w3, RecordTypeWithData::PTR { ptrdname: a1.clone() }, 1, 6),
+        rrc(&a1, soa(&b2, &w3), 1, 60),
+        rrc(&root, soa(&a1, &a1), 1, 0),
+        rrc(&b2, RecordTypeWithData::MINFO { rmailbx: a1.clone(), emailbx: b2.clone() }, 1, 8),
+        rrc(&a1, mx(10, &w3), 1, 9),
+        rrc(&w3, mx(65535, &w3), 1, 10),
+        rrc(&b2, RecordTypeWithData::SRV { priority: 0, weight: 65535, port: 53, target: a1.clone() }, 1, 11),
+        rrc(&a1, RecordTypeWithData::TXT { octets: Bytes::new() }, 1, 12),
+        rrc(&a1, txt(b"x"), 1, 13),
+        rrc(&b2, txt(&[0xC0, 0x0C, 0x01, b'a', 0x00]), 1, 14),
+        rrc(&root, RecordTypeWithData::NULL { octets: Bytes::new() }, 1, 15),
+        rrc(&a1, RecordTypeWithData::WKS { octets: opaque(1) }, 1, 16),
+        rrc(&w3, RecordTypeWithData::HINFO { octets: opaque(9) }, 1, 17),
+        rrc(&a1, unknown(0, Bytes::new()), 1, 18),
+        rrc(&b2, unknown(65535, opaque(3)), 1, 19),
+        rrc(&w3, unknown(252, opaque(2)), 1, 20),
+        rrc(&x63, a([10, 0, 0, 63]), 1, 21),
+        rrc(&x63, cname(&big), 1, 22),
+        rrc(&big, a([10, 0, 0, 255]), 1, 23),
+        rrc(&big, ns(&big), 1, 24),
+        rrc(&a1, a([10, 0, 0, 3]), 3, 25),
+        rrc(&b2, txt(b"class0"), 0, 26),
+        rrc(&w3, a([10, 0, 0, 4]), 255, 27),
+        rrc(&root, mx(0, &root), 1, 28),
+        rrc(&b2, RecordTypeWithData::PTR { ptrdname: root.clone() }, 65535, 29),
+        rrc(&w3, RecordTypeWithData::SRV { priority: 1, weight: 2, port: 3, target: x63.clone() }, 1, 30),
+        rrc(&a1, RecordTypeWithData::TXT { octets: opaque(300) }, 1, 31),
+        rrc(&w3, RecordTypeWithData::NULL { octets: opaque(1) }, 1, 32),
+    ]
+}
+
+fn question_sets(tier: Tier) -> Vec<Vec<Question>> {
+    let q1 = question(&n1(), QueryType::Record(RecordType::A));
+    let q2 = Question { name: n3(), qtype: QueryType::Wildcard, qclass: QueryClass::Wildcard };
+    let q3 = Question { name: n255(), qtype: QueryType::AXFR, qclass: QueryClass::Record(RecordClass::from(3)) };
+    let q4 = Question { name: DomainName::root_domain(), qtype: QueryType::Record(RecordType::from(65280)), qclass: QueryClass::Record(RecordClass::from(0)) };
+    match tier {
+        Tier::Quick => vec![vec![], vec![q1.clone()], vec![q2.clone(), q1.clone()]],
+        Tier::Thorough => vec![
+            vec![],
+            vec![q1.clone()],
+            vec![q2.clone()],
+            vec![q3.clone()],
+            vec![q2.clone(), q1.clone()],
+            vec![q3, q4],
+        ],
+    }
+}
+
+const SPLITS: [&[[usize; 3]]; 4] = [
+    &[[0, 0, 0]],
+    &[[1, 0, 0], [0, 1, 0], [0, 0, 1]],
+    &[[2, 0, 0], [1, 1, 0], [1, 0, 1], [0, 2, 0], [0, 1, 1], [0, 0, 2]],
+    &[
+        [3, 0, 0],
+        [2, 1, 0],
+        [2, 0, 1],
+        [1, 2, 0],
+        [1, 1, 1],
+        [1, 0, 2],
+        [0, 3, 0],
+        [0, 2, 1],
+        [0, 1, 2],
+        [0, 0, 3],
+    ],
+];
+
+struct BodySpace {
+    pool: Vec<ResourceRecord>,
+    qsets: Vec<Vec<Question>>,
+    /// (sequence length, number of splits used, first index)
+    blocks: Vec<(usize, usize, u64)>,
+    per_qset: u64,
+    all_splits_for_triples: bool,
+}
+
+impl BodySpace {
+    fn new(tier: Tier) -> Self {
+        let pool = templates();
+        let p = pool.len() as u64;
+        let all3 = tier == Tier::Thorough;
+        let mut blocks = Vec::new();
+        let mut at = 0u64;
+        for len in 0..=3usize {
+            let nsplit = if len == 3 && !all3 { 1 } else { SPLITS[len].len() };
+            blocks.push((len, nsplit, at));
+            at += p.pow(len as u32) * nsplit as u64;
+        }
+        BodySpace { pool, qsets: question_sets(tier), blocks, per_qset: at, all_splits_for_triples: all3 }
+    }
+    fn total(&self) -> u64 {
+        self.per_qset * self.qsets.len() as u64
+    }
+    fn message(&self, idx: u64) -> Message {
+        let qs = (idx / self.per_qset) as usize;
+        let r = idx % self.per_qset;
+        let mut blk = self.blocks[0];
+        for b in &self.blocks {
+            if r >= b.2 {
+                blk = *b;
+            }
+        }
+        let (len, nsplit, first) = blk;
+        let mut k = r - first;
+        let split_i = (k % nsplit as u64) as usize;
+        k /= nsplit as u64;
+        let p = self.pool.len() as u64;
+        let mut seq = Vec::with_capacity(len);
+        let seq_index = k;
+        for _ in 0..len {
+            seq.push(self.pool[(k % p) as usize].clone());
+            k /= p;
+        }
+        let split = if len == 3 && !self.all_splits_for_triples {
+            SPLITS[3][(seq_index % 10) as usize]
+        } else {
+            SPLITS[len][split_i]
+        };
+        let mut it = seq.into_iter();
+        let answers: Vec<_> = it.by_ref().take(split[0]).collect();
+        let authority: Vec<_> = it.by_ref().take(split[1]).collect();
+        let additional: Vec<_> = it.collect();
+        Message {
+            header: header_for(((idx * 37) % 8192) as u32, (idx % 65536) as u16),
+            questions: self.qsets[qs].clone(),
+            answers,
+            authority,
+            additional,
+        }
+    }
+}
+
+/// Explicit messages with extreme RDATA sizes (judged although the 65 535-octet
+/// RDATA makes the whole message 23 octets longer than a TCP message can be:
+/// the statement names that RDATA size explicitly).
+fn big_messages() -> Vec<(Message, bool)> {
+    let root = DomainName::root_domain();
+    let one = |r: ResourceRecord| Message {
+        header: plain_header(0xB160),
+        questions: vec![],
+        answers: vec![r],
+        authority: vec![],
+        additional: vec![],
+    };
+    let mut v = Vec::new();
+    for n in [65535usize, 65534, 65512, 65511, 16384, 16383] {
+        v.push((one(rrc(&root, RecordTypeWithData::TXT { octets: opaque(n) }, 1, 0)), false));
+        v.push((one(rrc(&n1(), RecordTypeWithData::NULL { octets: opaque(n) }, 1, 0)), false));
+        v.push((one(rrc(&n1(), unknown(65280, opaque(n)), 1, 0)), false));
+    }
+    // maximal RDATA followed by a record that shares its owner
+    let mut m = one(rrc(&n3(), RecordTypeWithData::TXT { octets: opaque(65000) }, 1, 0));
+    m.additional.push(rrc(&n3(), a([1, 2, 3, 4]), 1, 0));
+    v.push((m, false));
+    // many records: 4000 answers sharing two owners
+    let mut many = one(rrc(&n3(), a([0, 0, 0, 0]), 1, 0));
+    for i in 0..3999u32 {
+        let owner = if i % 2 == 0 { n3() } else { n2() };
+        many.answers.push(rrc(&owner, RecordTypeWithData::A { address: Ipv4Addr::from(i) }, 1, i));
+    }
+    v.push((many, true));
+    v
+}
+
+// ---- the offset sweep -------------------------------------------------------
+
+pub const N_PATTERNS: u64 = 7;
+
+fn pattern_name(p: u64) -> &'static str {
+    match p {
+        0 => "owner then owner",
+        1 => "CNAME RDATA then owner",
+        2 => "second SOA RDATA name then owner",
+        3 => "MX RDATA then owner (additional section)",
+        4 => "owner, other owner, then the first owner twice",
+        5 => "255-octet owner then owner",
+        _ => "question name (padding by questions) then owner",
+    }
+}
+
+/// A name that takes exactly `n` octets on the wire (root included), made
+/// distinct by `tag`.
+fn name_taking(n: usize, tag: usize) -> DomainName {
+    assert!((3..=255).contains(&n));
+    let mut labels: Vec<Vec<u8>> = Vec::new();
+    let mut rem = n - 1;
+    while rem > 0 {
+        let take = if rem > 64 && rem != 65 { 64 } else if rem == 65 { 63 } else { rem };
+        labels.push(vec![b'f'; take - 1]);
+        rem -= take;
+    }
+    // write the tag into the first label (decimal digits), as far as it has room
+    let mut t = tag;
+    for c in labels[0].iter_mut() {
+        *c = b'0' + (t % 10) as u8;
+        t /= 10;
+    }
+    let refs: Vec<&[u8]> = labels.iter().map(|l| &l[..]).collect();
+    raw_name(&refs)
+}
+
+/// The message of pattern `p` in which the reused name is first written at
+/// offset `x`; None if that offset cannot be produced.
+pub fn sweep_message(p: u64, x: usize) -> Option<Message> {
+    let root = DomainName::root_domain();
+    let n = dn("n.");
+    let other = dn("m.");
+    // 0xAA is a reserved label type: a stray pointer into the padding is refused
+    // at once, and the octets `01 6e 00` of the reused name cannot occur in it
+    let pad = |l: usize| rrc(&root, RecordTypeWithData::NULL { octets: Bytes::from(vec![0xAAu8; l]) }, 1, 0);
+    let hdr = plain_header(0x1234);
+    let empty = RecordTypeWithData::NULL { octets: Bytes::new() };
+    let mut m = Message { header: hdr, questions: vec![], answers: vec![], authority: vec![], additional: vec![] };
+    // offset at which the record after the padding record starts: 12 + 11 + l
+    match p {
+        0 | 4 | 5 => {
+            let l = x.checked_sub(23)?;
+            if l > 65535 {
+                return None;
+            }
+            let name = if p == 5 { n255() } else { n.clone() };
+            m.answers.push(pad(l));
+            m.answers.push(rrc(&name, empty.clone(), 1, 1));
+            if p == 4 {
+                m.answers.push(rrc(&other, empty.clone(), 1, 2));
+                m.authority.push(rrc(&name, empty.clone(), 1, 3));
+            }
+            m.additional.push(rrc(&name, empty, 1, 4));
+        }
+        1 => {
+            let l = x.checked_sub(34)?;
+            if l > 65535 {
+                return None;
+            }
+            m.answers.push(pad(l));
+            m.answers.push(rrc(&root, cname(&n), 1, 1));
+            m.answers.push(rrc(&n, empty, 1, 2));
+        }
+        2 => {
+            let l = x.checked_sub(37)?;
+            if l > 65535 {
+                return None;
+            }
+            m.answers.push(pad(l));
+            m.authority.push(rrc(
+                &root,
+                RecordTypeWithData::SOA { mname: other.clone(), rname: n.clone(), serial: 1, refresh: 2, retry: 3, expire: 4, minimum: 5 },
+                1,
+                1,
+            ));
+            m.additional.push(rrc(&n, empty, 1, 2));
+        }
+        3 => {
+            let l = x.checked_sub(36)?;
+            if l > 65535 {
+                return None;
+            }
+            m.answers.push(pad(l));
+            m.answers.push(rrc(&root, mx(5, &n), 1, 1));
+            m.additional.push(rrc(&n, a([1, 1, 1, 1]), 1, 2));
+        }
+        _ => {
+            // questions of exactly `need` octets in front of the question `n.`
+            let mut need = x.checked_sub(12)?;
+            let mut tag = 0usize;
+            while need > 0 {
+                // a question takes name + 4 octets, name between 3 and 255 octets
+                let take = if need >= 259 + 7 { 259 } else if need > 259 { need - 7 } else { need };
+                if take < 7 {
+                    return None;
+                }
+                m.questions.push(Question {
+                    name: name_taking(take - 4, tag),
+                    qtype: QueryType::Record(RecordType::A),
+                    qclass: QueryClass::Record(RecordClass::IN),
+                });
+                tag += 1;
+                need -= take;
+            }
+            m.questions.push(question(&n, QueryType::Record(RecordType::A)));
+            m.answers.push(rrc(&n, empty, 1, 1));
+        }
+    }
+    Some(m)
+}
+
+fn sweep_offsets(tier: Tier) -> Vec<usize> {
+    let mut v: Vec<usize> = Vec::new();
+    let w = tier.pick(300usize, 2000);
+    let w2 = tier.pick(20usize, 300);
+    v.extend(16384 - w..=16384 + w);
+    v.extend(32768 - w2..=32768 + w2);
+    v.extend(49152 - w2..=49152 + w2);
+    v.extend(65535 - w..=65535);
+    // small offsets as a control (pointers must be emitted and be right)
+    v.extend(23..=tier.pick(123usize, 1023));
+    v.sort_unstable();
+    v.dedup();
+    v
+}
+
+/// Where the reused name really starts in the reference encoding (sanity of the
+/// generator: the sweep must place it at `x`).
+fn first_offset_of(m: &Message, name: &DomainName) -> Option<usize> {
+    let bytes = refwire::encode(m, Compress::None);
+    let mut w = Vec::new();
+    for l in &name.labels {
+        w.push(l.len());
+        w.extend_from_slice(l.octets());
+    }
+    // walk the structure is overkill here: the names `n.` / 255-octet name do
+    // not occur inside padding (zeros) or other names by construction
+    bytes.windows(w.len()).position(|s| s == &w[..])
+}
+
+// ---------------------------------------------------------------------------------------------
+// run
+// ---------------------------------------------------------------------------------------------
+
+/// Like `par_fold` but hands out single indices (jobs of very different size).
+fn par_jobs<A: Send, M: Fn() -> A + Sync, F: Fn(&mut A, usize) + Sync>(n: usize, threads: usize, seed: u64, init: M, f: F) -> Vec<A> {
+    let next = std::sync::atomic::AtomicUsize::new(0);
+    let mut out = Vec::new();
+    std::thread::scope(|s| {
+        let hs: Vec<_> = (0..threads.max(1))
+            .map(|_| {
+                s.spawn(|| {
+                    let mut acc = init();
+                    loop {
+                        let i = next.fetch_add(1, std::sync::atomic::Ordering::Relaxed);
+                        if i >= n {
+                            break;
+                        }
+                        f(&mut acc, (i + seed as usize) % n);
+                    }
+                    acc
+                })
+            })
+            .collect();
+        for h in hs {
+            match h.join() {
+                Ok(a) => out.push(a),
+                Err(_) => {
+                    eprintln!("C04: worker thread panicked (machinery error)");
+                    std::process::exit(2);
+                }
+            }
+        }
+    });
+    out
+}
+
+fn message_origin(m: &Message) -> Value {
+    json!({"kind": "message", "message_hex": hex(&refwire::encode(m, Compress::None))})
+}
+
+pub fn run(ctx: &Ctx) -> i32 {
+    let tier = ctx.tier;
+    let wall_cap = tier.pick(45.0, 560.0);
+    let mut total = Acc::default();
+    let mut report = Report::new();
+    let mut exhaustive = true;
+    let mut caps: Vec<String> = Vec::new();
+
+    // (1) headers
+    let ids = [0u16, 0x1234, 0xFFFF];
+    let body_q = question(&n3(), QueryType::Record(RecordType::MX));
+    let body_rr = rrc(&n3(), mx(1, &n3()), 1, 3600);
+    let parts = par_fold(8192 * 3 * 2, ctx.threads, ctx.seed, Acc::default, |acc, i| {
+        let bits = (i % 8192) as u32;
+        let id = ids[(i / 8192) % 3];
+        let with_body = i / (8192 * 3) == 1;
+        let m = Message {
+            header: header_for(bits, id),
+            questions: if with_body { vec![body_q.clone()] } else { vec![] },
+            answers: if with_body { vec![body_rr.clone()] } else { vec![] },
+            authority: vec![],
+            additional: vec![],
+        };
+        check_message(acc, &m, &|| json!({"kind": "header", "bits": bits, "id": id, "with_body": with_body}), "headers", i as u64, true);
+    });
+    for p in parts {
+        total.merge(p);
+    }
+
+    // (2) bodies
+    let bodies = BodySpace::new(tier);
+    let nb = bodies.total();
+    let parts = par_fold(nb as usize, ctx.threads, ctx.seed, Acc::default, |acc, i| {
+        let m = bodies.message(i as u64);
+        check_message(acc, &m, &|| json!({"kind": "body", "tier": tier.name(), "index": i}), "bodies", i as u64, true);
+    });
+    for p in parts {
+        total.merge(p);
+    }
+    let bigs = big_messages();
+    {
+        let mut acc = Acc::default();
+        for (i, (m, judge)) in bigs.iter().enumerate() {
+            check_message(&mut acc, m, &|| json!({"kind": "big", "index": i}), "max-rdata", i as u64, *judge);
+        }
+        total.merge(acc);
+    }
+
+    // (3) offset sweep
+    let offsets = sweep_offsets(tier);
+    let n_sweep = offsets.len() as u64 * N_PATTERNS;
+    let parts = par_fold(n_sweep as usize, ctx.threads, ctx.seed, Acc::default, |acc, i| {
+        let p = i as u64 % N_PATTERNS;
+        let x = offsets[i / N_PATTERNS as usize];
+        match sweep_message(p, x) {
+            Some(m) => {
+                let reused = if p == 5 { n255() } else { dn("n.") };
+                if first_offset_of(&m, &reused) != Some(x) {
+                    eprintln!("C04: sweep generator misplaced the name (pattern {p}, offset {x})");
+                    std::process::exit(2);
+                }
+                check_message(acc, &m, &|| json!({"kind": "sweep", "pattern": p, "offset": x, "pattern_name": pattern_name(p)}), "sweep", (x as u64) * 8 + p, true);
+            }
+            None => acc.h("sweep/offset-not-constructible"),
+        }
+    });
+    for p in parts {
+        total.merge(p);
+    }
+
+    if std::env::var("VERIF_TIMING").is_ok() {
+        eprintln!("C04: parts 1-3 done at {:.1}s", ctx.elapsed());
+    }
+    // (4) re-encode everything C03's corpus holds that decodes
+    let mut corpus_jobs: Vec<(c03::Space, u64, u64)> = Vec::new();
+    for space in c03::SCHEDULE {
+        let n = c03::space_items(space, tier);
+        let step: u64 = match space {
+            c03::Space::Short => 70_000,
+            c03::Space::Tails => 100_000,
+            c03::Space::Subst => 1,
+            c03::Space::Extremes => 8,
+            c03::Space::Triples => 2048,
+            _ => tier.pick(512, 64),
+        };
+        let mut lo = 0;
+        while lo < n {
+            corpus_jobs.push((space, lo, (lo + step).min(n)));
+            lo += step;
+        }
+    }
+    let capped = std::sync::atomic::AtomicBool::new(false);
+    let parts = par_jobs(corpus_jobs.len(), ctx.threads, ctx.seed, Acc::default, |acc, j| {
+        if ctx.elapsed() > wall_cap {
+            capped.store(true, std::sync::atomic::Ordering::Relaxed);
+            return;
+        }
+        let (space, lo, hi) = corpus_jobs[j];
+        let tag = format!("reencode-{}", space.code());
+        let mut last: Option<Message> = None;
+        let mut same = 0u64;
+        for item in lo..hi {
+            let mut k = 0u64;
+            c03::for_each_input_opt(space, tier, item, false, &mut |b, _| {
+                acc.corpus_inputs += 1;
+                k += 1;
+                if let Ok(m) = refwire::decode(b) {
+                    // consecutive inputs often decode to the same message
+                    if last.as_ref() == Some(&m) {
+                        same += 1;
+                        return;
+                    }
+                    check_message(acc, &m, &|| json!({"kind": "wire", "input_hex": hex(b)}), &tag, item * 4096 + k, true);
+                    last = Some(m);
+                }
+            });
+        }
+        if same > 0 {
+            *acc.hist.entry(format!("{tag}/same-message-as-previous-input")).or_insert(0) += same;
+        }
+    });
+    for p in parts {
+        total.merge(p);
+    }
+    if capped.load(std::sync::atomic::Ordering::Relaxed) {
+        exhaustive = false;
+        caps.push(format!("wall clock cap of {wall_cap} s reached while re-encoding C03's corpus"));
+    }
+
+    total.hashes.sort_unstable();
+    total.hashes.dedup();
+    if total.hash_overflow {
+        caps.push("distinct count: a worker exceeded 6e6 digests, later ones were not recorded (count is a lower bound)".into());
+    }
+    total.trim();
+
+    report.evaluations = total.messages;
+    report.states = total.messages;
+    report.transitions = total.octets;
+    report.traces_validated = total.messages - total.skipped_oversize;
+    report.distinct_nontrivial = total.hashes.len() as u64;
+    report.rule = "a message is non-trivial when its encoding contains at least one compression pointer (found by the structural audit, so the pointer clause was really exercised); distinct = distinct FNV-64 digests of those encodings. states = messages encoded; transitions = octets produced by the encoder".into();
+    report.samples = total.samples.clone();
+    if let Some(m) = sweep_message(0, 16383) {
+        report.samples.push(json!({"space": "sweep", "pattern": pattern_name(0), "first_occurrence_offset": 16383, "message": describe_message(&m)}));
+    }
+    report.samples.push(json!({"space": "bodies", "index": 4242, "message": describe_message(&bodies.message(4242 % nb))}));
+    report.bounds = json!({
+        "headers": "2^13 flag/opcode/rcode combinations x ids {0, 0x1234, 0xffff} x {no body, question + MX record}",
+        "bodies": {
+            "templates": bodies.pool.len(),
+            "max_records": 3,
+            "question_sets": bodies.qsets.len(),
+            "section_splits": if tier == Tier::Thorough { "all (1/3/6/10)" } else { "all for <= 2 records; one per 3-record sequence (rotating)" },
+            "messages": nb,
+            "max_rdata_messages": bigs.len(),
+        },
+        "sweep": {
+            "patterns": (0..N_PATTERNS).map(pattern_name).collect::<Vec<_>>(),
+            "offsets": offsets.len(),
+            "windows": format!("16384±{0}, 32768±{1}, 49152±{1}, 65535-{0}..65535, control 23..{2}", tier.pick(300, 2000), tier.pick(20, 300), tier.pick(123, 1023)),
+            "messages": n_sweep,
+        },
+        "reencode": {
+            "corpus": "every input of C03's spaces (same tier; truncated inputs left out) that the reference decoder accepts",
+            "inputs_walked": total.corpus_inputs,
+        },
+        "messages_over_65535_octets_skipped": total.skipped_oversize,
+        "pointers_audited": total.pointers,
+    });
+    report.exhaustive = exhaustive;
+    if !caps.is_empty() {
+        report.extra.insert("caps".into(), json!(caps));
+    }
+    report.outcome_histogram = total.hist.clone();
+    report.extra.insert("violation_counts".into(), json!(total.viol_counts));
+    report.assumptions = vec![
+        "D8: well-formed = public constructors, codes from From<u16>, names within limits, counts and RDATA <= 65535, encoded size <= 65535 (the explicit 65535-octet-RDATA messages are judged nevertheless)".into(),
+        "which names the encoder compresses is not judged; only that every pointer it emits is right".into(),
+        "the corpus of part (4) is regenerated from C03's generator and filtered with the reference decoder; C03 establishes that the implementation accepts the same inputs".into(),
+    ];
+    // deterministic order: smallest encoding first within a clause
+    total.viols.sort_by(|a, b| (a.1.clause.as_str(), &a.0).cmp(&(b.1.clause.as_str(), &b.0)));
+    report.violations = total.viols.into_iter().map(|(_, v)| v).collect();
+    finish(ctx, report)
+}
+
+fn message_from_replay(v: &Value) -> Option<Message> {
+    match v["kind"].as_str()? {
+        "header" => {
+            let with_body = v["with_body"].as_bool().unwrap_or(false);
+            Some(Message {
+                header: header_for(v["bits"].as_u64()? as u32, v["id"].as_u64()? as u16),
+                questions: if with_body { vec![question(&n3(), QueryType::Record(RecordType::MX))] } else { vec![] },
+                answers: if with_body { vec![rrc(&n3(), mx(1, &n3()), 1, 3600)] } else { vec![] },
+                authority: vec![],
+                additional: vec![],
+            })
+        }
+        "body" => {
+            let tier = if v["tier"] == "thorough" { Tier::Thorough } else { Tier::Quick };
+            let b = BodySpace::new(tier);
+            Some(b.message(v["index"].as_u64()? % b.total()))
+        }
+        "big" => big_messages().into_iter().nth(v["index"].as_u64()? as usize).map(|x| x.0),
+        "sweep" => sweep_message(v["pattern"].as_u64()?, v["offset"].as_u64()? as usize),
+        "wire" => refwire::decode(&unhex(v["input_hex"].as_str()?)).ok(),
+        "message" => refwire::decode(&unhex(v["message_hex"].as_str()?)).ok(),
+        _ => None,
+    }
+}
+
+pub fn replay(ctx: &Ctx, v: &Value) -> i32 {
+    let m = match message_from_replay(v) {
+        Some(m) => m,
+        None => {
+            eprintln!("C04: replay file does not describe a message");
+            return 2;
+        }
+    };
+    println!("message: {}", describe_message(&m));
+    let mut acc = Acc::default();
+    check_message(&mut acc, &m, &|| v.clone(), "replay", 0, false);
+    match m.to_octets() {
+        Ok(b) => {
+            println!("encoded: {} octets, head {}", b.len(), c03::describe_input(&b));
+            println!("implementation decoder: {}", match Message::from_octets(&b) {
+                Ok(back) if back == m => "same message".to_string(),
+                Ok(back) => format!("DIFFERENT: {}", describe_message(&back)),
+                Err(e) => format!("ERROR: {e}"),
+            });
+            println!("reference decoder:      {}", match refwire::decode(&b) {
+                Ok(back) if back == m => "same message".to_string(),
+                Ok(back) => format!("DIFFERENT: {}", describe_message(&back)),
+                Err(e) => format!("ERROR: {:?}", e.kind),
+            });
+            let au = audit(&b, &m);
+            println!("pointer audit: {} pointers, {}", au.pointers, if au.ok() { "all address an identical earlier name".to_string() } else { format!("{:?} {:?}", au.ptr_fails.iter().map(|f| &f.text).collect::<Vec<_>>(), au.other) });
+        }
+        Err(e) => println!("encoder error: {e}"),
+    }
+    if acc.viols.is_empty() {
+        println!("replay: property holds on this case");
+        0
+    } else {
+        for (_, x) in &acc.viols {
+            println!("clause {}{}: {}", x.clause, x.slug.map(|s| format!(" [{s}]")).unwrap_or_default(), x.summary);
+        }
+        println!("VIOLATION property={} replay=(replayed case)", ctx.id);
+        1
+    }
+}
+
 pub fn worker(_args: &[String]) -> i32 {
     2
 }
